@@ -86,6 +86,11 @@ def post_cov(run, snap, res, args, kwargs):
     if a["fasta"]:
         return run.ood(mon, "cram-or-fasta")
     df = res.data
+    kinds = sorted({type(c).__name__ for c in df["chromosome"].tolist()})
+    if kinds not in ([], ["str"]):
+        return run.violate(mon, f"{algo}-chromosome-names-not-text", f"the chromosome column holds values of type {kinds} (contig names are text, also when they look like numbers; "
+                           f"processes={a['processes']}, chunk size {CHUNK['size']})", {"algorithm": algo, "processes": a["processes"], "chunk_size": CHUNK["size"], "bed": bed[:40],
+                                                                                      "chromosome_values": [repr(c) for c in df["chromosome"].tolist()[:60]]})
     got = list(zip((str(c) for c in df["chromosome"].tolist()), (int(x) for x in df["start"]), (int(x) for x in df["end"]), (str(g) for g in df["gene"].tolist())))
     gd = df["depth"].values.astype(float) if "depth" in df.columns else None
     gl = df["log2"].values.astype(float)
